@@ -174,6 +174,22 @@ func execC13Walk(in sx.V) sx.V {
 				rr := launch(i, "run", func() { p.VerifNotify(u) }, func() sx.V { return done })
 				r = sx.L(rr, sx.Nat(u.ConnID()), sx.N(uint64(u.Seqno())))
 			}
+		case "status", "count":
+			// the other exported methods that take the pool lock
+			var n int
+			call := func() { n = len(p.Status().Connections) }
+			if name == "count" {
+				call = func() { n = p.ConnectionsNumber() }
+			}
+			r = launch(i, "m"+name, call, func() sx.V { return sx.L(sx.A(name), sx.Nat(n)) })
+		case "info":
+			var ok bool
+			r = launch(i, "minfo", func() { ok = p.BestMasterchainInfoClient() != nil }, func() sx.V {
+				if ok {
+					return done
+				}
+				return sx.A("nil-client")
+			})
 		case "drain":
 			// the real Run loop, left alone until the update buffer is empty and every publisher
 			// that was waiting for room has got in; then it is stopped (after its current iteration)
@@ -435,6 +451,13 @@ func genC13Walks(c *Ctx, f *c13Fails) {
 		ops = append(ops, op0("notify"), op0("state"), op2("sethead", 0, tgtA+r.Intn(2)), op0("notify"), op0("state"), op1("recv", 0), op1("unsub", 0), op0("state"))
 		c.Emit("c13.walk", walkSx(r.Intn(2), nconns, tgts, ops), fmt.Sprintf("walk|first-waiter|h%d|b%d", minInt(h0, 1), nb))
 	}
+	// the other exported methods (Status, ConnectionsNumber, BestMasterchainInfoClient) interleaved with the protocol,
+	// on pools with 0, 1 and 3 connections
+	c.Emit("c13.walk", walkSx(0, 0, nil, []sx.V{op0("status"), op0("count"), op0("tick"), op0("status"), op0("notify"), op0("count"), op0("state")}), "walk|methods|c0")
+	c.Emit("c13.walk", walkSx(0, 1, []int{3}, []sx.V{op0("status"), op1("sub", 0), op0("count"), op2("sethead", 0, 3), op0("status"), op0("info"), op0("drain"), op0("count"),
+		op1("recv", 0), op0("status"), op1("unsub", 0), op0("count"), op0("state")}), "walk|methods|c1")
+	c.Emit("c13.walk", walkSx(1, 3, []int{2, 4}, []sx.V{op0("count"), op1("sub", 0), op0("status"), op1("sub", 1), op2("sethead", 1, 5), op0("info"), op0("tick"), op0("status"),
+		op0("drain"), op0("count"), op1("recv", 0), op1("unsub", 0), op0("status"), op1("unsub", 1), op0("state")}), "walk|methods|c3")
 	// bursts of head updates against the 10-slot buffer
 	for _, k := range []int{9, 10, 11} {
 		for _, j := range []int{1, 3} {
@@ -614,6 +637,9 @@ func genC13Walks(c *Ctx, f *c13Fails) {
 				}
 			case k < 7:
 				ops = append(ops, op0("tick"))
+				if r.Chance(40) {
+					ops = append(ops, op0([]string{"status", "count", "info"}[r.Intn(3)]))
+				}
 			case k < 8:
 				ops = append(ops, opConn(r.Intn(nconns), r.Chance(70), int64(1+r.Intn(3))))
 				if r.Chance(50) {
@@ -667,6 +693,11 @@ const (
 // best connection keep arriving until the caller has returned (timeout after
 // waitShort, or cancellation).
 func execC13Wait(in sx.V) sx.V {
+	if len(in.List) == 6 {
+		res, took := runWaitCtx(in)
+		lastWaitTook = took
+		return res
+	}
 	if len(in.List) == 4 && in.List[2].K == sx.KN {
 		return execC13Wait2(in) // the two-caller shape (tgt0 tgt1 h0 heads)
 	}
@@ -781,6 +812,51 @@ func runWait(in sx.V) (sx.V, time.Duration) {
 	}
 }
 
+// c13.wait, deadline shape: (tgt h0 head arrival-ms timeout-ms deadline-ms) -> 'nil | 'timeout | 'deadline
+// WaitMasterchainSeqno(ctx, tgt, timeout) with a caller context that carries its own deadline; the best
+// connection (head h0) reports `head` at the given time after the call.  The wait ends at
+// min(timeout, deadline).
+func runWaitCtx(in sx.V) (sx.V, time.Duration) {
+	tgt, h0, h := uint32(in.List[0].U64()), uint32(in.List[1].U64()), uint32(in.List[2].U64())
+	arrival := time.Duration(in.List[3].U64()) * time.Millisecond
+	timeout := time.Duration(in.List[4].U64()) * time.Millisecond
+	deadline := time.Duration(in.List[5].U64()) * time.Millisecond
+	p, conns, _ := newWalkPool(0, 1)
+	ctx, stop := context.WithCancel(context.Background())
+	defer stop()
+	go p.Run(ctx)
+	if h0 > 0 {
+		conns[0].SetMasterHead(h0)
+	}
+	for k := 0; k < 400 && p.VerifUpdateBufferLen() > 0; k++ {
+		time.Sleep(500 * time.Microsecond)
+	}
+	time.Sleep(2 * time.Millisecond)
+	start := time.Now()
+	wctx, wcancel := context.WithDeadline(context.Background(), start.Add(deadline))
+	defer wcancel()
+	var err error
+	var took time.Duration
+	d := goStep(func() {
+		err = p.WaitMasterchainSeqno(wctx, tgt, timeout)
+		took = time.Since(start)
+	})
+	if !finished(d, arrival-time.Since(start)) {
+		conns[0].SetMasterHead(h)
+	}
+	if !finished(d, 5*time.Second) {
+		return sx.A("hang"), 0
+	}
+	switch {
+	case err == nil:
+		return sx.A("nil"), took
+	case err == context.DeadlineExceeded:
+		return sx.A("deadline"), took
+	default:
+		return sx.A("timeout"), took
+	}
+}
+
 func waitSx(tgt, h0 int, heads [][2]int, cancel bool) sx.V {
 	hs := make([]sx.V, len(heads))
 	for i, h := range heads {
@@ -829,6 +905,26 @@ func genC13Waits(c *Ctx, f *c13Fails) {
 			}
 		default:
 			f.fail("c13.wait", in, "wait-hang", "WaitMasterchainSeqno did not return")
+		}
+	}
+	// caller contexts with their own deadline, earlier and later than the timeout argument; the head
+	// arrives before both / between them / after both.  The wait ends at min(timeout, deadline).
+	for _, td := range [][2]int{{80, 900}, {900, 80}, {80, 80 + 400}} {
+		for _, arr := range []int{10, 300, 2000} {
+			for _, h := range []int{9, 3} {
+				in := sx.L(sx.Nat(9), sx.Nat(2), sx.Nat(h), sx.Nat(arr), sx.Nat(td[0]), sx.Nat(td[1]))
+				res := c.Emit("c13.wait", in, fmt.Sprintf("wait|ctx|t%d|d%d|a%d|h%d", td[0], td[1], arr, h))
+				took := lastWaitTook
+				end := time.Duration(minInt(td[0], td[1])) * time.Millisecond
+				if res.Atom == "timeout" || res.Atom == "deadline" {
+					if took < end-5*time.Millisecond || took > end+300*time.Millisecond {
+						f.fail("c13.wait", in, "wait-ends-at-min-timeout-deadline", fmt.Sprintf("WaitMasterchainSeqno(timeout %dms) under a context with deadline %dms returned its error after %v, not at min(timeout, deadline) = %v", td[0], td[1], took.Round(time.Millisecond), end))
+					}
+				}
+				if res.Atom == "hang" {
+					f.fail("c13.wait", in, "wait-hang", "WaitMasterchainSeqno did not return")
+				}
+			}
 		}
 	}
 	emit(waitSx(5, 7, nil, false), "wait|already-there")
@@ -1370,6 +1466,66 @@ func reproHeadDuringSubscribe() (bool, string) {
 	return false, ""
 }
 
+// every exported method of the pool, on pools with 0, 1 and 3 connections (0 = during the
+// asynchronous InitializeConnections), interleaved with the waiting entry points and with
+// connections being added; each call under a 2 s watchdog: a call that does not return means the
+// pool lock was left held
+func reproExportedMethods() (bool, string) {
+	step := func(what string, f func()) string {
+		if !finished(goStep(f), 2*time.Second) {
+			return what
+		}
+		return ""
+	}
+	for _, n := range []int{0, 1, 3} {
+		p := pool.New(pool.BestPingStrategy)
+		ctx, cancel := context.WithCancel(context.Background())
+		go p.Run(ctx)
+		var added []*pool.VerifRealConn
+		calls := []struct {
+			what string
+			f    func()
+		}{
+			{"Status", func() { p.Status() }},
+			{"ConnectionsNumber", func() { p.ConnectionsNumber() }},
+			{"BestMasterchainInfoClient", func() { p.BestMasterchainInfoClient() }},
+			{"BestArchiveClient", func() { _, _, _ = p.BestArchiveClient(context.Background()) }},
+			{"BestMasterchainClient", func() {
+				c2, cc := context.WithTimeout(context.Background(), 20*time.Millisecond)
+				defer cc()
+				_, _, _ = p.BestMasterchainClient(c2)
+			}},
+			{"BestClientByBlockID", func() {
+				c2, cc := context.WithTimeout(context.Background(), 20*time.Millisecond)
+				defer cc()
+				_, _ = p.BestClientByBlockID(c2, ton.BlockID{})
+			}},
+			{"addConnection", func() { added = append(added, p.VerifAddConnection(len(added), hostOf(len(added)))) }},
+			{"Status", func() { p.Status() }},
+			{"WaitMasterchainSeqno", func() { _ = p.WaitMasterchainSeqno(context.Background(), 5, 20*time.Millisecond) }},
+			{"SetMasterHead", func() { added[0].SetMasterHead(5) }},
+			{"WaitMasterchainSeqno", func() { _ = p.WaitMasterchainSeqno(context.Background(), 5, time.Second) }},
+			{"updateBest", func() { p.VerifUpdateBest() }},
+			{"ConnectionsNumber", func() { p.ConnectionsNumber() }},
+		}
+		for i := 0; i < n; i++ {
+			added = append(added, p.VerifAddConnection(i, hostOf(i)))
+		}
+		for k, cl := range calls {
+			if stuck := step(cl.what, cl.f); stuck != "" {
+				cancel()
+				prev := "New"
+				if k > 0 {
+					prev = calls[k-1].what
+				}
+				return true, fmt.Sprintf("pool with %d connection(s): %s did not return within 2s (after %s): the pool is blocked", len(added), stuck, prev)
+			}
+		}
+		cancel()
+	}
+	return false, ""
+}
+
 // observation (outside the property's quantifier: pools of 1..4 connections)
 func reproEmptyPoolPanic() (panicked bool, what string) {
 	defer func() {
@@ -1396,6 +1552,7 @@ var c13Repros = []c13Repro{
 	{"pool-stuck", reproPoolStuck},
 	{"updatebest-racing-head", reproRefreshWhileHeadsArrive},
 	{"subscribe-lost-wakeup", reproHeadDuringSubscribe},
+	{"pool-stuck", reproExportedMethods},
 }
 
 // c13.repro: n -> 'ok | 'bad   (the model has no such behaviour: always 'ok)
